@@ -161,3 +161,15 @@ CHECKS['C18'] = dict(
          '(S) a real TestState finalized through abort / STOP / timeout / exception / normal with a looping watcher. (R) a watcher thread '
          'attached to whole Test.execute() runs ending PASS / STOP / exception.',
     note='Line-level preemption in the mixin and the TestState status methods; primitive-operation level elsewhere; bounds in evidence.')
+
+CHECKS['C12'] = dict(
+    engine='sched', level='model_checking', design_ref='DESIGN.md#c12',
+    technique='stateless schedule exploration with virtual time and modelled asynchronous exceptions',
+    text='(K) a KillableThread subclass with instrumented body / exception handler / finish handler and one kill() issued before start '
+         'or by a second thread: all interleavings at line granularity of run/kill/_is_thread_proc_running/async_raise up to the '
+         'preemption bound, judged by where the kill() call began (before start => body never runs; after the body returned => no '
+         'effect and handlers complete; during the body => error only in that thread).  (T) real Test.execute() runs with a timed '
+         'phase (plain / group main / group teardown) whose body sleeps T-eps, T+, or never returns, under a virtual clock whose timers '
+         'may fire early as explored deviations: no false timeout, own result kept, TIMEOUT + teardown + plug tearDown, bounded delay, '
+         'nothing of the abandoned body attributed to other phases.',
+    note='Async exceptions are delivered at scheduling points of the target (not between arbitrary bytecodes); line granularity.')
